@@ -2145,3 +2145,7 @@ mod tests {
         let _ = i256::ZERO.ilog2();
     }
 }
+
+#[cfg(kani)]
+#[path = "/verif/kani/arrow-buffer/bigint/mod.rs"]
+mod verif_kani;
